@@ -1,6 +1,6 @@
 """C20 — the wire protocol carries every message intact and rejects garbage."""
 import re
-from axvlib import core, sig
+from axvlib import core, sig, absint
 from axvlib.core import AnchorMissing, op_local, op_const, enum_switches, int_switches, dominated
 from . import common as K
 
@@ -255,7 +255,16 @@ def check(cx):
         alloc = [c for c in rm.calls() if c.callee in ("std::vec::from_elem",) or c.callee.endswith("::with_capacity")]
         cmps = [(bi, s) for bi, b in enumerate(rm.blocks) for s in b["stmts"] if s["rv"].get("r") == "bin" and s["rv"]["op"] in ("Gt", "Ge", "Lt", "Le")
                 and any(str((op_const(o) or {}).get("cdef", "")).endswith("MAX_MESSAGE_SIZE") or (op_const(o) or {}).get("v") == mx for o in s["rv"]["o"])]
-        good = bool(alloc) and bool(cmps) and all(any(rm.dominates(bi, a.bb) for bi, _ in cmps) for a in alloc)
+        def behind_cap(a):
+            if any(rm.dominates(bi, a.bb) for bi, _ in cmps):
+                return True
+            # the test may sit in a helper whose other exits are error returns (`read_len(r)?`): no feasible path reaches the
+            # allocation without passing the comparison (constant-fact path search; undecided counts as a path)
+            try:
+                return absint.PathSearch(p, rm).find_path(0, {a.bb}, kill={bi for bi, _ in cmps}) is None
+            except absint.TooManyStates:
+                return False
+        good = bool(alloc) and bool(cmps) and all(behind_cap(a) for a in alloc)
         # the allocation must lie on the `not too large` arm: the too-large arm returns Err
         cx.verdict(good, r3, "alloc-after-cap", rm.where(), "allocation dominated by the MAX_MESSAGE_SIZE comparison",
                    "read_message allocates the body without (or before) the MAX_MESSAGE_SIZE test: a 4-byte prefix asks for up to 4 GiB")
@@ -501,7 +510,6 @@ def check(cx):
                             if v in m:
                                 excused.add(m[v])
                 region = dominated(fl, err_t)
-                from axvlib import absint
                 try:
                     # paths that known flags rule out are discarded (a predicate helper returns false on its `_` arm)
                     reach = absint.PathSearch(p, fl).feasible_blocks(err_t, kill=send | excused)
